@@ -611,6 +611,9 @@ class XPathToken(Token[ta.XPathTokenType]):
                     if not isinstance(op2, (AbstractQName, UntypedAtomic)):
                         raise TypeError(msg.format(type(op1), type(op2)))
                 case AbstractDateTime():
+                    if self.symbol in ('<', '<=', '>', '>=') and \
+                            op1.name in ('gYear', 'gYearMonth', 'gMonth', 'gMonthDay', 'gDay'):
+                        raise TypeError(f"the values of type xs:{op1.name} are not ordered")
                     if isinstance(op2, AbstractDateTime) and \
                             context is not None and context.timezone is not None:
                         # values without timezone are compared in the implicit timezone
